@@ -66,6 +66,53 @@ static int decode_syms(d_derived_tbl *dt, unsigned char *buf, size_t len, int n,
   return 0;
 }
 
+
+/* ms <seed> <w> <h>: the derived decoder tables must follow a DHT that REDEFINES a slot between
+ * scans: encode noise with all components on Huffman slot 0, optimised tables, three
+ * non-interleaved sequential scans (=> three different tables in slot 0), and compare the
+ * coefficients read back with those of the single-scan encoding. */
+static unsigned long ms_hash(unsigned char *jpg, unsigned long n, int *warn)
+{
+  struct jpeg_decompress_struct d; struct jpeg_error_mgr e; unsigned long hsh = 1469598103UL; int ci;
+  jvirt_barray_ptr *coefs;
+  d.err = jpeg_std_error(&e); e.error_exit = my_exit; e.emit_message = my_emit;
+  if (setjmp(jb)) { jpeg_destroy_decompress(&d); *warn = -1; return 0; }
+  jpeg_create_decompress(&d); jpeg_mem_src(&d, jpg, n); jpeg_read_header(&d, TRUE);
+  coefs = jpeg_read_coefficients(&d);
+  for (ci = 0; ci < d.num_components; ci++) {
+    JDIMENSION r, b; int k; jpeg_component_info *c = &d.comp_info[ci];
+    for (r = 0; r < c->height_in_blocks; r++) {
+      JBLOCKARRAY ba = (*d.mem->access_virt_barray) ((j_common_ptr)&d, coefs[ci], r, 1, FALSE);
+      for (b = 0; b < c->width_in_blocks; b++) for (k = 0; k < 64; k++) hsh = (hsh ^ (unsigned short)ba[0][b][k]) * 1099511UL + 7;
+    }
+  }
+  *warn = (int)d.err->num_warnings;
+  jpeg_finish_decompress(&d); jpeg_destroy_decompress(&d);
+  return hsh;
+}
+static int ms_encode(unsigned seed, int w, int h, int multiscan, unsigned char **out, unsigned long *n)
+{
+  struct jpeg_compress_struct c; struct jpeg_error_mgr e; static jpeg_scan_info si[3]; int i, y;
+  unsigned char *row = (unsigned char *)malloc(w * 3); JSAMPROW rp = row;
+  c.err = jpeg_std_error(&e); e.error_exit = my_exit; e.emit_message = my_emit;
+  if (setjmp(jb)) { jpeg_destroy_compress(&c); free(row); return -1; }
+  jpeg_create_compress(&c); jpeg_mem_dest(&c, out, n);
+  c.image_width = w; c.image_height = h; c.input_components = 3; c.in_color_space = JCS_RGB;
+  jpeg_set_defaults(&c); jpeg_set_quality(&c, 90, TRUE);
+  for (i = 0; i < 3; i++) { c.comp_info[i].dc_tbl_no = 0; c.comp_info[i].ac_tbl_no = 0; c.comp_info[i].h_samp_factor = c.comp_info[i].v_samp_factor = 1; }
+  c.optimize_coding = TRUE;
+  if (multiscan) {
+    for (i = 0; i < 3; i++) { si[i].comps_in_scan = 1; si[i].component_index[0] = i; si[i].Ss = 0; si[i].Se = 63; si[i].Ah = 0; si[i].Al = 0; }
+    c.scan_info = si; c.num_scans = 3;
+  }
+  jpeg_start_compress(&c, TRUE);
+  for (y = 0; y < h; y++) {
+    for (i = 0; i < w * 3; i++) { seed = seed * 1103515245u + 12345u; row[i] = (unsigned char)((i % 3 == 0) ? (seed >> 16) : (i % 3 == 1 ? (seed >> 20) & 0x3F : (seed >> 9) & 0x0F)); }
+    jpeg_write_scanlines(&c, &rp, 1);
+  }
+  jpeg_finish_compress(&c); jpeg_destroy_compress(&c); free(row); return 0;
+}
+
 int main(void)
 {
   setvbuf(stdout, NULL, _IOLBF, 0);
@@ -141,6 +188,13 @@ int main(void)
       }
       /* release the JPOOL_IMAGE tables */
       jpeg_abort_compress(&cc); jpeg_abort_decompress(&dc);
+    } else if (!strcmp(cmd, "ms")) {
+      unsigned seed = (unsigned)strtoul(p, &p, 10); int w = (int)strtol(p, &p, 10), h = (int)strtol(p, &p, 10);
+      unsigned char *a = NULL, *b = NULL; unsigned long na = 0, nb = 0, ha, hb; int wa = 0, wb = 0;
+      if (ms_encode(seed, w, h, 0, &a, &na) || ms_encode(seed, w, h, 1, &b, &nb)) { printf("ms encode-error\n"); free(a); free(b); continue; }
+      ha = ms_hash(a, na, &wa); hb = ms_hash(b, nb, &wb);
+      printf("ms %s warn=%d,%d\n", (ha == hb && wa == 0 && wb == 0) ? "same" : "DIFF", wa, wb);
+      free(a); free(b);
     } else if (!strcmp(cmd, "nbits")) {
       long lo = strtol(p, &p, 10), hi = strtol(p, &p, 10), x;
       printf("nb");
